@@ -22,11 +22,48 @@ func traceIdent(f string) string {
 }
 
 // traceSig: the types recorded per call (receiver first).
+// foreignMethod resolves "pkg.Type.Method" to the method object and its receiver type.
+func (e *Engine) foreignMethod(f string) (*types.Func, types.Type) {
+	parts := strings.Split(f, ".")
+	if len(parts) != 3 {
+		return nil, nil
+	}
+	for _, imp := range e.pkg.Types.Imports() {
+		if imp.Name() == parts[0] {
+			if tn, ok := imp.Scope().Lookup(parts[1]).(*types.TypeName); ok {
+				obj, _, _ := types.LookupFieldOrMethod(tn.Type(), true, imp, parts[2])
+				if fn, ok := obj.(*types.Func); ok {
+					recv := tn.Type()
+					if sig, ok := fn.Type().(*types.Signature); ok && sig.Recv() != nil {
+						if _, isPtr := sig.Recv().Type().(*types.Pointer); isPtr {
+							recv = types.NewPointer(tn.Type())
+						}
+					}
+					return fn, recv
+				}
+			}
+		}
+	}
+	return nil, nil
+}
+
 func (e *Engine) traceSig(f string) []types.Type {
 	if s, ok := e.traceSigs[f]; ok {
 		return s
 	}
 	var out []types.Type
+	if fn, recv := e.foreignMethod(f); fn != nil {
+		sig := fn.Type().(*types.Signature)
+		out = append(out, recv)
+		for k := 0; k < sig.Params().Len(); k++ {
+			out = append(out, sig.Params().At(k).Type())
+		}
+		if e.traceSigs == nil {
+			e.traceSigs = map[string][]types.Type{}
+		}
+		e.traceSigs[f] = out
+		return out
+	}
 	if fd, ok := e.funcs[f]; ok {
 		sig := e.info.Defs[fd.Name].(*types.Func).Type().(*types.Signature)
 		if sig.Recv() != nil {
@@ -142,6 +179,13 @@ func (c *FuncCtx) traceRes(st *State, f string, i int, sort string) string {
 
 func (e *Engine) traceResSig(f string) []types.Type {
 	var out []types.Type
+	if fn, _ := e.foreignMethod(f); fn != nil {
+		sig := fn.Type().(*types.Signature)
+		for k := 0; k < sig.Results().Len(); k++ {
+			out = append(out, sig.Results().At(k).Type())
+		}
+		return out
+	}
 	if fd, ok := e.funcs[f]; ok {
 		sig := e.info.Defs[fd.Name].(*types.Func).Type().(*types.Signature)
 		for i := 0; i < sig.Results().Len(); i++ {
